@@ -79,6 +79,8 @@ var c09OpsB = []string{
 	"retractall(r(X,X))", "retractall(r(1,_))", "retractall(r(_,_))", "X = Y, retractall(r(X,Y))", "retractall(r(X,Y))", "retractall(r(2,1))",
 	"findall(X, retract(r(X,X)), L)", "once(retract(r(X,X)))", "findall(X-Y, retract(r(X,Y)), L)", "X = Y, findall(X, retract(r(X,Y)), L)", "once(retract(r(_,3)))",
 	"findall(X-Y, r(X,Y), L)", "findall(X, r(X,X), L)",
+	// a variable of the asserting query reappears, still unbound, at ANOTHER position of a retract pattern
+	"assertz(r(X,1)), findall(X, retract(r(2,X)), L)", "assertz(r(X,Y)), findall(X-Y, retract(r(Y,X)), L)", "assertz(r(X,1)), retractall(r(2,X))", "assertz(r(X,X)), findall(Y, retract(r(1,Y)), L)",
 	"findall(X-Y, (r(X,Y), retractall(r(Z,Z))), L)", "findall(X-Y, (r(X,Y), retractall(r(X,_))), L)", "findall(X-Y, (retract(r(X,Y)), assertz(r(Y,X))), L)",
 }
 
